@@ -91,12 +91,13 @@ class Build:
                               stdout=subprocess.PIPE, stderr=subprocess.PIPE, cwd=cwd or REPO)
 
 
-def build_repo(dest, cflags="", verif=True, targets=("chibi-scheme", "chibi-compiled-libs"), jobs=None):
+def build_repo(dest, cflags="", verif=True, targets=("chibi-scheme", "chibi-compiled-libs"), jobs=None, cc=None, ldflags=""):
     """Configure and build /repo's current working tree out of tree.  Nothing is written into /repo."""
     flags = "-Wno-error " + ("-DCHIBI_VERIF=1 " if verif else "") + cflags
     t0 = time.time()
+    extra = ["-DCMAKE_SHARED_LINKER_FLAGS=" + ldflags, "-DCMAKE_EXE_LINKER_FLAGS=" + ldflags, "-DCMAKE_MODULE_LINKER_FLAGS=" + ldflags] if ldflags else []
     r = subprocess.run(["cmake", "-G", "Ninja", "-S", REPO, "-B", dest, "-DCMAKE_BUILD_TYPE=RelWithDebInfo",
-                        "-DCMAKE_C_FLAGS=" + flags], stdout=subprocess.PIPE, stderr=subprocess.STDOUT)
+                        "-DCMAKE_C_FLAGS=" + flags] + extra, env=dict(os.environ, CC=cc) if cc else None, stdout=subprocess.PIPE, stderr=subprocess.STDOUT)
     if r.returncode != 0:
         raise Broken("cmake configure failed:\n" + r.stdout.decode(errors="replace")[-2000:])
     try:
@@ -112,9 +113,9 @@ def build_repo(dest, cflags="", verif=True, targets=("chibi-scheme", "chibi-comp
     return b
 
 
-def compile_c(build, src, out, extra=(), shared=False):
+def compile_c(build, src, out, extra=(), shared=False, cc="cc", verif=True):
     """Compile a C harness against /repo's headers and the scratch libchibi-scheme."""
-    cmd = ["cc", "-O1", "-g", "-DCHIBI_VERIF=1", "-DSEXP_USE_DL=1", "-DSEXP_USE_INTTYPES=0", "-DSEXP_USE_NTPGETTIME=1",
+    cmd = [cc, "-O1", "-g"] + (["-DCHIBI_VERIF=1"] if verif else []) + [ "-DSEXP_USE_DL=1", "-DSEXP_USE_INTTYPES=0", "-DSEXP_USE_NTPGETTIME=1",
            "-I", os.path.join(REPO, "include"), "-I", os.path.join(build.path, "include")]
     if shared:
         cmd += ["-shared", "-fPIC"]
